@@ -83,6 +83,45 @@ theorem C11_neumann_solve (L : X →ₗ[K] X) (W : X →ₗ[K] (ι → K)) (V : 
     simp only [hinv0, zero_mul] at h1
     exact (mul_eq_zero.mp h1.symm).resolve_left hd0
 
+/-- the residual of the spectral solve for an ARBITRARY table `inv`: mode `i` of the right-hand side is reproduced with
+the factor `lam i * inv i` -/
+theorem C11_spectral_solve_residual (L : X →ₗ[K] X) (W : X →ₗ[K] (ι → K)) (V : (ι → K) →ₗ[K] X) (lam inv : ι → K)
+    (hVW : ∀ x, V (W x) = x) (hL : ∀ g, L (V g) = V (fun i => lam i * g i)) (f : X) :
+    L (spectralSolve W V inv f) = f - V (fun i => (1 - lam i * inv i) * W f i) := by
+  unfold spectralSolve
+  rw [hL]
+  have key : (fun i => lam i * (inv i * W f i)) = W f - (fun i => (1 - lam i * inv i) * W f i) := by
+    funext i; simp only [Pi.sub_apply]; ring
+  rw [key, map_sub, hVW]
+
+/-- the hypothesis "the table vanishes at the constant mode AND ONLY THERE" of `C11_spectral_solve` is necessary: if the
+table is zero at another mode `m` (e.g. a tolerance-based test that also catches the smoothest non-constant modes), the
+right-hand side `V e_m` — which has no constant part — is not solved: the operator applied to the result is `0`,
+not `V e_m ≠ 0` -/
+theorem C11_dropped_mode_not_solved (L : X →ₗ[K] X) (W : X →ₗ[K] (ι → K)) (V : (ι → K) →ₗ[K] X) (lam inv : ι → K) (i0 m : ι)
+    (hVW : ∀ x, V (W x) = x) (hWV : ∀ g, W (V g) = g) (hL : ∀ g, L (V g) = V (fun i => lam i * g i))
+    (hm : m ≠ i0) (hinvm : inv m = 0) :
+    let f := V (fun i => if i = m then (1 : K) else 0)
+    L (spectralSolve W V inv f) = 0 ∧ f - V (fun i => if i = i0 then W f i else 0) = f ∧ f ≠ 0 := by
+  intro f
+  have hWf : W f = fun i => if i = m then (1 : K) else 0 := hWV _
+  refine ⟨?_, ?_, ?_⟩
+  · unfold spectralSolve
+    rw [hL, hWf]
+    have : (fun i => lam i * (inv i * (if i = m then (1 : K) else 0))) = 0 := by
+      funext i; by_cases h : i = m
+      · subst h; simp [hinvm]
+      · simp [h]
+    rw [this, map_zero]
+  · have : (fun i => if i = i0 then W f i else 0) = (0 : ι → K) := by
+      funext i; by_cases h : i = i0
+      · subst h; rw [if_pos rfl, hWf]; simp [Ne.symm hm]
+      · simp [h]
+    rw [this, map_zero, sub_zero]
+  · intro h0
+    have := congrFun (hWf.symm.trans (by rw [h0, map_zero])) m
+    simp at this
+
 end spectral
 
 /-! ### (2) the 1D Neumann second-difference operator -/
